@@ -45,6 +45,81 @@ func (c *failConn) PublishRequest(subject, reply string, data []byte) error {
 
 type scriptEv []interface{}
 
+// scriptedConn is a res.Conn that is not NATS: every message of the script is handed to the channel
+// the caller subscribed with, by blocking sends of a responder goroutine (like restest.MockConn) -
+// also the messages that follow the one SendRequest returned with.
+type scriptedConn struct {
+	mu    sync.Mutex
+	subs  map[string]chan *nats.Msg
+	burst [][]byte
+}
+
+func (c *scriptedConn) Publish(string, []byte) error { return nil }
+func (c *scriptedConn) ChanSubscribe(subject string, ch chan *nats.Msg) (*nats.Subscription, error) {
+	c.mu.Lock()
+	c.subs[subject] = ch
+	c.mu.Unlock()
+	return &nats.Subscription{Subject: subject}, nil
+}
+func (c *scriptedConn) ChanQueueSubscribe(subject, q string, ch chan *nats.Msg) (*nats.Subscription, error) {
+	return c.ChanSubscribe(subject, ch)
+}
+func (c *scriptedConn) Close() {}
+func (c *scriptedConn) PublishRequest(subject, reply string, data []byte) error {
+	c.mu.Lock()
+	ch := c.subs[reply]
+	msgs := c.burst
+	c.mu.Unlock()
+	go func() {
+		for _, m := range msgs {
+			select {
+			case ch <- &nats.Msg{Subject: reply, Data: m}:
+			case <-time.After(300 * time.Millisecond):
+				return
+			}
+		}
+	}()
+	return nil
+}
+
+// runScriptedPair issues, on one goroutine, a request that is answered by a burst of n responses and then a
+// request nobody answers: the second must time out, whatever reached the first one's inbox after it returned.
+func runScriptedPair(n int) []rec {
+	conn := &scriptedConn{subs: map[string]chan *nats.Msg{}}
+	for i := 0; i < n; i++ {
+		conn.burst = append(conn.burst, []byte(fmt.Sprintf(`{"result":{"burst":%d}}`, i)))
+	}
+	classify := func(resp resprot.Response) string {
+		switch {
+		case resp.HasError() && resp.Error.Code == res.CodeTimeout:
+			return "timeout"
+		case resp.HasError() && resp.Error.Code == res.CodeInternalError:
+			return "internal"
+		case resp.HasError():
+			return "error"
+		case resp.HasResource():
+			return "resource"
+		}
+		return "result"
+	}
+	first := resprot.SendRequest(conn, "call.test.a.m", nil, 2*tick, nil)
+	time.Sleep(5 * time.Millisecond) // the rest of the burst is on its way
+	conn.mu.Lock()
+	conn.burst = nil
+	conn.mu.Unlock()
+	t := time.Now()
+	second := resprot.SendRequest(conn, "call.test.b.m", nil, tick, nil)
+	el := time.Since(t)
+	sc1 := [][]interface{}{}
+	for i := 0; i < n; i++ {
+		sc1 = append(sc1, []interface{}{"resp", "result"})
+	}
+	return []rec{
+		{"fail": "", "t0": 2, "script": sc1, "res": classify(first), "ext": []int{}, "released": true, "fast": true, "elapsed_ticks": 0.0, "dbg": fmt.Sprintf("scripted connection: burst of %d responses", n)},
+		{"fail": "", "t0": 1, "script": [][]interface{}{}, "res": classify(second), "ext": []int{}, "released": true, "fast": el < tick/2, "elapsed_ticks": float64(el) / float64(tick), "dbg": fmt.Sprintf("scripted connection: silent request after a request that was answered by a burst of %d responses", n)},
+	}
+}
+
 func runScript(url string, id int, fail string, t0 int, script []scriptEv) (rec, error) {
 	nc, err := nats.Connect(url)
 	if err != nil {
@@ -266,6 +341,13 @@ func Run(c *core.Ctx) {
 	}
 	wg.Wait()
 	var good []interface{}
+	for n := 1; n <= 4; n++ {
+		for rep := 0; rep < c.Pick(3, 20); rep++ {
+			for _, r := range runScriptedPair(n) {
+				good = append(good, r)
+			}
+		}
+	}
 	untimely := 0
 	for _, r := range recs {
 		if r == nil {
